@@ -62,11 +62,23 @@ fn wait_parked(id: usize, timeout: Duration) -> Option<&'static str> {
 }
 fn finish(id: usize, panicked: bool) { let c = ctl(); let mut g = c.m.lock().unwrap(); g[id].done = true; g[id].panicked = panicked; c.cv.notify_all(); }
 
-fn writer_body(id: usize, vals: Vec<Vec<u8>>, ks: Keyspace) {
+fn writer_body(id: usize, vals: Vec<Vec<u8>>, ks: Keyspace, db: Database) {
     AGENT.with(|a| a.set(Some(id)));
     for (n, v) in vals.into_iter().enumerate() {
         park(id, "cmd.begin");
-        ks.insert(format!("w{id}-{n:03}"), v).unwrap();
+        // every third write goes through a batch (the commit path of batches and transactions)
+        if n % 3 == 2 { let mut b = db.batch(); b.insert(&ks, format!("w{id}-{n:03}"), v); b.commit().unwrap(); }
+        else { ks.insert(format!("w{id}-{n:03}"), v).unwrap(); }
+    }
+}
+/// a thread that keeps asking for the (existing) keyspace: `Database::keyspace` takes the keyspace map's
+/// write lock for a moment, and must never have to wait for a halted writer
+fn opener_body(id: usize, db: Database) {
+    AGENT.with(|a| a.set(Some(id)));
+    loop {
+        park(id, "op.idle");
+        if STOP.load(Ordering::Acquire) { break; }
+        let _ = db.keyspace("a", KeyspaceCreateOptions::default).unwrap();
     }
 }
 fn worker_body(id: usize, db: Database) {
@@ -103,14 +115,16 @@ fn run_case(seed: u64, lean: &mut Lean, hist: &mut BTreeMap<String, u64>, sample
     fjall::verif::set_worker_channel_capacity(0);
     if cap < 1000 { *hist.entry("cases-with-a-small-channel".into()).or_insert(0) += 1; }
     let ks = db.keyspace("a", || KeyspaceCreateOptions::default().max_memtable_size(LIMIT)).unwrap();
-    let n = nw + nk;
+    let n = nw + nk + 1; // writers, workers, one opener
     STOP.store(false, Ordering::Release);
     { let mut g = ctl().m.lock().unwrap(); g.clear(); for _ in 0..n { g.push(Agent::default()); } }
     let mut handles = vec![];
     for (i, p) in progs.iter().cloned().enumerate() {
         let ks = ks.clone();
-        handles.push(std::thread::spawn(move || { let res = std::panic::catch_unwind(std::panic::AssertUnwindSafe(|| writer_body(i, p, ks))); finish(i, res.is_err()); }));
+        let dbw = db.clone();
+        handles.push(std::thread::spawn(move || { let res = std::panic::catch_unwind(std::panic::AssertUnwindSafe(|| writer_body(i, p, ks, dbw))); finish(i, res.is_err()); }));
     }
+    { let db = db.clone(); let oid = nw + nk; handles.push(std::thread::spawn(move || { let res = std::panic::catch_unwind(std::panic::AssertUnwindSafe(|| opener_body(oid, db))); finish(oid, res.is_err()); })); }
     for j in 0..nk {
         let db = db.clone();
         handles.push(std::thread::spawn(move || { let res = std::panic::catch_unwind(std::panic::AssertUnwindSafe(|| worker_body(nw + j, db))); finish(nw + j, res.is_err()); }));
@@ -138,12 +152,12 @@ fn run_case(seed: u64, lean: &mut Lean, hist: &mut BTreeMap<String, u64>, sample
     let writers_done = |at: &Vec<&'static str>| (0..nw).all(|i| at[i] == "done");
 
     'outer: while fails.is_empty() {
-        if writers_done(&at) && fjall::verif::queued_worker_messages(&db) == 0 && (nw..n).all(|j| at[j] == "wk.idle") { break; }
+        if writers_done(&at) && fjall::verif::queued_worker_messages(&db) == 0 && (nw..nw + nk).all(|j| at[j] == "wk.idle") { break; }
         steps += 1;
         if steps > 900 { fail!("impl-vs-oracle", "the writers did not finish within 900 scheduled steps (sealed memtables = {}, queued messages = {})", ks.sealed_memtable_count(), fjall::verif::queued_worker_messages(&db)); break; }
         // which agents can be moved, judged from the real state
         let queued = fjall::verif::queued_worker_messages(&db);
-        let movable: Vec<usize> = (0..n).filter(|&i| !pending[i] && match at[i] {
+        let movable: Vec<usize> = (0..nw + nk).filter(|&i| !pending[i] && match at[i] {
             "done" => false,
             "cmd.begin" | "worker.rotate.begin" | "worker.flush.begin" => true, // needs the lock: a block probe if it is held
             "wk.idle" => queued > 0,
@@ -157,6 +171,16 @@ fn run_case(seed: u64, lean: &mut Lean, hist: &mut BTreeMap<String, u64>, sample
             // only lock waiters (and nobody to release the lock), or nothing at all
             fail!("impl-vs-oracle", "deadlock: no thread can make a step - writers at {:?}, workers at {:?}, journal lock held by agent {holder:?}, sealed memtables = {}, queued worker messages = {queued}", &at[..nw], &at[nw..], ks.sealed_memtable_count());
             break;
+        }
+        if r.chance(1, 12) {
+            // the opener's turn
+            let id = nw + nk;
+            release(id);
+            let p = wait_parked(id, t);
+            trace.push("opener: Database::keyspace(existing)".into());
+            *hist.entry("opener-calls".into()).or_insert(0) += 1;
+            if p != Some("op.idle") { fail!("impl-vs-oracle", "Database::keyspace() for an existing keyspace did not return within {t:?} (writers at {:?}, sealed memtables = {})", &at[..nw], ks.sealed_memtable_count()); break; }
+            continue;
         }
         let id = *r.pick(&movable);
         let is_writer = id < nw;
